@@ -371,6 +371,8 @@ async def go():
             res = [True, f"a request of {n} bytes gets {got!r} instead of {want.hex()}"]
             break
     print("RESULT " + json.dumps(res), flush=True)
+    import shutil
+    shutil.rmtree(tmp, ignore_errors=True)
     os._exit(0)   # asyncio's server shutdown waits for connections the handler never closes
 asyncio.run(go())
 """
